@@ -1,4 +1,5 @@
 """C13 - results of expansions are data and are never re-read as shell syntax (E-RETAG)."""
+import re
 from .. import etag, flow, mir, taint
 from ..mir import const_str, last_seg, render, strip_sites
 from .c05 import must_facts
@@ -240,8 +241,12 @@ def exposed_sinks_rule(ctx, crate, exposure):
         if not ctx.require(bool(descs), "R13-2", "R13-2|sink-anchor|%s" % p, "no recogniser found in %s" % p, p):
             continue
         d = "; ".join(sorted(descs))
+        # keyed by the operator characters the function recognises (not by how many tests it spells them with:
+        # `contains('>')` next to a regex for `>` is the same recogniser; a test for a new operator is a new finding)
+        ops = "".join(sorted({ch for x in descs for lit in re.findall(r'"((?:[^"\\]|\\.)*)"', x) for ch in lit
+                              if ch in "|&<>;"}))
         ctx.ob("R13-2", p, "recognisers {%s} never see expansion results carrying an empty tag" % d, not exposure,
-               key="R13-2|sink|%s|%s" % (p, d), where=where, crate=crate.kind,
+               key="R13-2|sink|%s|%s" % (p, ops), where=where, crate=crate.kind,
                detail=None if not exposure else "exposed through: " + ", ".join(sorted(exposure)))
 
 
